@@ -343,8 +343,10 @@ def run(repo, rep):
     rep.analysed(initf)
     rep.analysed(reqf)
     probs = []
-    if not any(isinstance(n, ast.Assign) and norm(n.targets[0]) == 'self.context_def_list' and
-               norm(n.value) == '%s.copy_context_def_list()' % initf.params[1] for n in ast.walk(initf.node)):
+    from .c20 import proposal_sources
+    srcs_ = proposal_sources(repo)
+    if not any(v_ in ('locked-copy', 'unlocked-copy') for _f, _l, v_ in srcs_) or \
+            any(v_ not in ('locked-copy', 'unlocked-copy', 'empty') for _f, _l, v_ in srcs_):
         probs.append('the proposal is not built from a copy of the entity\'s context definition list')
     calls = [n for n in ast.walk(reqf.node) if isinstance(n, ast.Call) and norm(n.func) == 'self._request']
     if not calls or [norm(a) for a in calls[0].args[:2]] != ['self.ae.local_ae', 'self.remote_ae']:
